@@ -502,6 +502,51 @@ def echo_blocking_cases(ctx, hook):
     return n
 
 
+def multiport_selfclosing_member(ctx, hook):
+    """A member device delivers N messages and hangs up inside the same _receive() call: the
+    MultiPort (and multi_receive) must still hand out every one of them."""
+    from mido.ports import multi_receive
+    n = 0
+    for count in (1, 3, 1023, 1024, 1025, 3000):
+        for via in ('iter_pending', 'poll', 'receive', 'multi_receive'):
+            case = {'kind': 'multi-selfclose', 'count': count, 'via': via}
+            log = []
+            dev = [Message('note_on', channel=9, note=i % 128, velocity=(i // 128) % 128) for i in range(count)]
+            member = RecordingPort('m', log=log, dev=dev, batch=count, close_at=count)
+            other = EchoPort('o')
+            mp = MultiPort([other, member])
+            hook.arm({}, None, None)
+            got = []
+            try:
+                if via == 'iter_pending':
+                    got = list(mp.iter_pending())
+                    got += list(mp.iter_pending())
+                elif via == 'poll':
+                    while True:
+                        m = mp.poll()
+                        if m is None:
+                            break
+                        got.append(m)
+                elif via == 'receive':
+                    for _ in range(count):
+                        got.append(mp.receive())
+                else:
+                    got = list(multi_receive([other, member], block=False))
+                    got += list(multi_receive([other, member], block=False))
+                ctx.check('results == lifecycle model', got == dev, 'multi:selfclosing-member-lost', case,
+                          {'delivered': len(got), 'taken_in': count})
+                ctx.check('non-blocking call never waits' if via != 'receive' else 'blocking call bounded sleeps',
+                          hook.n <= (2 if via == 'receive' else 0), 'multi:selfclosing-member-slept', case, hook.n)
+            except HarnessAbort as exc:
+                ctx.check('blocking call bounded sleeps', False, 'multi:selfclosing-member-blocked', case,
+                          {'delivered': len(got), 'why': str(exc)})
+            except Exception as exc:
+                ctx.fail('results == lifecycle model', f'multi:selfclosing:{type(exc).__name__}', case, repr(exc))
+            member.closed = True
+            n += 1
+    return n
+
+
 def multiport_cases(ctx, hook):
     n = 0
     for nmem in (0, 1, 2, 3):
@@ -749,6 +794,9 @@ def run(ctx):
             k = helper_cases(ctx, hook)
             ctx.nontrivial(None, k)
             n += k
+            k = multiport_selfclosing_member(ctx, hook)
+            ctx.nontrivial(None, k)
+            n += k
             k = echo_blocking_cases(ctx, hook)
             ctx.nontrivial(None, k)
             ctx.extra('echo_blocking_cases', k)
@@ -775,6 +823,8 @@ def replay(ctx, case):
             multiport_cases(ctx, hook)
         elif k == 'helpers':
             helper_cases(ctx, hook)
+        elif k == 'multi-selfclose':
+            multiport_selfclosing_member(ctx, hook)
         elif k == 'echo-blocking':
             echo_blocking_cases(ctx, hook)
     finally:
